@@ -1,17 +1,18 @@
 """C19 — wire codec and framing round trips (DESIGN.md section 6, C19; pattern P1 + framing pipeline).
 
-TLC (spec/Codec.tla) checks the design of the five decision tables of spec/CodecDefs.tla and exports
-their complete case products; the Go harness (harness/mcp/c19_codec_test.go) concretises every case
+TLC (spec/Codec.tla) checks the design of the seven decision tables of spec/CodecDefs.tla (messages, wire
+shapes, content values, required members, decoder case sensitivity, frames through the read loops of the real
+transports, arity of list/map members of the result types) and exports their complete case products; the Go harness (harness/mcp/c19_codec_test.go) concretises every case
 with seeded values, runs the real encoders / decoders / framers / sessions and records which members
 survived; the TLA+ monitor spec/CodecMon.tla judges the recorded comparisons (verdict) and compares
 them with the code-shaped expectation (drift).  Level: exploration (see DESIGN.md section 7).
 """
-import json, os, shutil
+import json, os, re, shutil
 import vlib
 
 PID = "C19"
 TABLES = {"msg": "cases_msg.ndjson", "wire": "cases_wire.ndjson", "val": "cases_val.ndjson",
-          "req": "cases_req.ndjson", "vc": "cases_vc.ndjson"}
+          "req": "cases_req.ndjson", "vc": "cases_vc.ndjson", "fr": "cases_fr.ndjson", "ar": "cases_ar.ndjson"}
 FIELD = {"Method": "method", "Params": "params", "Result": "result", "ErrCode": "error.code",
          "ErrMsg": "error.message", "ErrData": "error.data"}
 MISSING = {"text.text": ("TextContent", "text"), "image.data": ("ImageContent", "data"),
@@ -72,6 +73,19 @@ def sigs_of(e, inv):
         return ["case-insensitive:%s.%s" % (c["target"], c["member"])]
     if k == "fuzz":
         return ["panic:%s" % e["dec"]]
+    if k == "fr":  # the frame class and the reader; layout, line end, position and version are in the replay
+        return ["%s:frame=%s|path=%s" % (o["out"], c["shape"], c["path"])]
+    if k == "ar":
+        ctx = "%s.%s:arity=%s" % (c["type"], c["member"], c["arity"])
+        if inv == "ArDecodes":
+            return ["roundtrip=%s:decode-error" % ctx]
+        if inv == "ArNilKept":
+            return ["roundtrip=%s:decoded-%s" % (ctx, "nil" if o["isnil"] else "non-nil")]
+        if inv == "ArSameLen":
+            return ["roundtrip=%s:len=%d" % (ctx, o["len"])]
+        if inv == "ArSameElems":
+            return ["roundtrip=%s:elements-differ" % ctx]
+        return ["roundtrip=%s:other-members-lost|fill=%s|rt=%s" % (ctx, c["fill"], c["rt"])]
     return ["?:" + inv]
 
 
@@ -85,6 +99,10 @@ def nontrivial(e):
         return c["fill"] == "zero" or c["meta"] != "none" or c["nested"] not in ("na", "one") or c["arity"] in ("nil", "empty")
     if k == "req":
         return c["fill"] != "one"
+    if k == "fr":
+        return c["shape"] not in ("obj-msg", "obj-notif", "obj-resp") or c["pad"] != "none"
+    if k == "ar":
+        return c["arity"] != "one"
     return True
 
 
@@ -94,7 +112,9 @@ def run(tier, seed, replay):
         "byte-level fidelity is compared in the Go harness (field-wise JSON equality with exact numbers); the TLA+ monitor judges the comparison results",
         "every abstract class is concretised with seeded representatives (VERIF_SEED); classes, not all values, are exhaustive",
         "newline-delimited framing is exercised through ioConn over io.Pipe, SSE through writeEvent/scanEvents on an in-memory ResponseWriter",
-        "goroutine panics inside ioConn's reader goroutine would crash the test binary and are reported as a process panic",
+        "frames: a panic in a goroutine of the SDK (reader goroutines of jsonrpc2 / ioConn / the streamable client) ends the test binary; "
+        "the crash is attributed to the frame case in flight (outcome 'crash', judged by the monitor); those paths run last so that every other observation is on disk",
+        "arity: nil and empty must be kept apart only for members whose type spells nil by omission and empty by an empty container (CodecDefs!ArDistinguished); elsewhere nil and empty count as equal",
     ]
     out = vlib.outdir(PID)
     for f in os.listdir(out):  # replay files of earlier runs
@@ -107,12 +127,12 @@ def run(tier, seed, replay):
     if not res.ok:
         raise vlib.MachineryError("Codec design check failed: " + (res.violation or res.stdout[-2000:]))
     counts = [p for p in res.printed if isinstance(p, dict) and "msg" in p][0]
-    v.add_tlc("Codec(design: Holds(c, Expected(c)) <=> ~Lead(c) on 5 tables; Classify total; witnesses)", res)
+    v.add_tlc("Codec(design: Holds(c, Expected(c)) <=> ~Lead(c) on 7 tables; Classify total; witnesses)", res)
     ncases = sum(counts[k] for k in TABLES)
     v.cov["states"] = ncases
     v.cov["transitions"] = ncases
     v.cov["case_counts"] = {k: counts[k] for k in TABLES}
-    v.cov["design_leads"] = {k: counts[k + "Leads"] for k in ("msg", "val", "req", "vc")}
+    v.cov["design_leads"] = {k: counts.get(k + "Leads", 0) for k in ("msg", "val", "req", "vc", "fr", "ar")}
     v.cov["lead_id_classes"] = counts["leadIds"]
     indir = os.path.join(out, "in")
     shutil.rmtree(indir, ignore_errors=True)
@@ -126,6 +146,9 @@ def run(tier, seed, replay):
             os.replace(os.path.join(wd, f), os.path.join(indir, f))
     # 2. the real code
     obs = os.path.join(out, "obs.ndjson")
+    for stale in (obs, obs + ".inflight", obs + ".aborted", obs + ".detail"):
+        if os.path.exists(stale):
+            os.remove(stale)
     reps = 1 if tier == "quick" else 5
     nfuzz = 0 if replay and json.load(open(replay))["replay"].get("k") != "fuzz" else (20000 if tier == "quick" else 400000)
     rc, gout, wall = vlib.go_test("mcp", "^TestVerif_C19$", ["mcp/c19_codec_test.go"], timeout=1500,
@@ -133,23 +156,54 @@ def run(tier, seed, replay):
                                        "VERIF_FUZZ": nfuzz, "VERIF_TIER": tier, "VERIF_WORKERS": 4})
     vlib.go_must_build(rc, gout, PID)
     v.cov["go_wall_s"] = round(wall, 1)
+    crashed = None
     if rc != 0:
-        if "panic:" in gout or "fatal error:" in gout:
-            v.violation("panic:process", "the test binary crashed while decoding (panic / fatal error in SDK code)",
-                        {"k": "crash", "output": gout[-4000:]})
-            return v.finish()
-        raise vlib.MachineryError("C19 harness failed:\n" + gout[-3000:])
-    rows = vlib.read_ndjson(obs)
+        m = re.search(r"^(panic: .*|fatal error: .*)$", gout, re.M)
+        if not m or "test timed out" in m.group(1):
+            raise vlib.MachineryError("C19 harness failed:\n" + gout[-3000:])
+        # The process died of a panic / fatal error.  In the harness's own goroutines SDK code runs under recover,
+        # so this is a goroutine of the SDK: real-code behaviour.  The frame case in flight (if any) gets the
+        # outcome "crash" and goes to the monitor with everything that was observed before.
+        stack = gout[m.start():]
+        blk = re.search(r"goroutine \d+ \[running\]:\n((?:.+\n)+)", stack)
+        funcs = [l for l in (blk.group(1).splitlines() if blk else []) if not l.startswith("\t")
+                 and not l.startswith(("panic(", "runtime.", "testing.", "created by"))]
+        if funcs and re.search(r"/mcp\.(c19\w*|TestVerif_C19)[.(\[]", funcs[0]):
+            raise vlib.MachineryError("the C19 harness itself panicked:\n" + stack[:3000])
+        crashed = {"msg": m.group(1)[:300], "stack": stack[:2500]}
+    rows = []
+    for ln in open(obs, errors="replace") if os.path.exists(obs) else []:
+        ln = ln.strip()
+        if ln:
+            try:
+                rows.append(json.loads(ln))
+            except ValueError:
+                break  # truncated last line after a crash
     detail = {}
     if os.path.exists(obs + ".detail"):
-        for d in vlib.read_ndjson(obs + ".detail"):
-            detail[d["line"]] = d
+        for ln in open(obs + ".detail", errors="replace"):
+            try:
+                d = json.loads(ln)
+                detail[d["line"]] = d
+            except ValueError:
+                break
+    if crashed:
+        if os.path.exists(obs + ".inflight"):
+            row = json.load(open(obs + ".inflight"))
+            frame = row.pop("frame", "")
+            rows.append(row)
+            detail[len(rows)] = {"line": len(rows), "in": "frame in flight " + frame,
+                                 "out": crashed["msg"] + " | " + " ".join(crashed["stack"].split())[:1200]}
+            v.assumptions.append("the test binary died (%s) while a frame case was in flight; cases after it were not run" % crashed["msg"])
+        else:
+            v.violation("panic:process", "the test binary crashed outside the frame table (panic / fatal error in a goroutine of the SDK): " + crashed["msg"],
+                        {"k": "crash", "output": crashed["stack"]})
     aborted = None
     if os.path.exists(obs + ".aborted"):
         aborted = open(obs + ".aborted").read().strip()
         v.assumptions.append("run cut short: " + aborted)
-    if not replay and not aborted:
-        want = reps * (counts["msg"] + counts["wire"] + counts["val"]) + counts["req"] + 4 * reps * counts["vc"]
+    if not replay and not aborted and not crashed:
+        want = reps * (counts["msg"] + counts["wire"] + counts["val"] + counts["fr"]) + counts["req"] + 4 * reps * (counts["vc"] + counts["ar"])
         got = sum(1 for r in rows if r["k"] != "fuzz")
         if got != want:
             raise vlib.MachineryError("harness produced %d of %d case observations" % (got, want))
@@ -181,10 +235,10 @@ def run(tier, seed, replay):
     v.cov["arbitrary_inputs"] = nfz
     v.cov["distinct_outcomes_judged"] = len(uniq)
     v.cov["distinct_nontrivial"] = len({json.dumps([r["k"], r.get("c")], sort_keys=True) for r in rows if r["k"] != "fuzz" and nontrivial(r)})
-    v.cov["rule"] = ("complete products of the five tables enumerated by TLC (Codec!MsgCaseSet, WireCaseSet, ValCaseSet, ReqCaseSet, VcCaseSet), "
+    v.cov["rule"] = ("complete products of the seven tables enumerated by TLC (Codec!MsgCaseSet, WireCaseSet, ValCaseSet, ReqCaseSet, VcCaseSet, FrCaseSet, ArCaseSet), "
                      "every case run %d time(s) with fresh seeded values; non-trivial = framing other than raw, non-plain strings, edge/lossy/string ids, "
-                     "invalid or miscased wire shapes, zero-valued / nested / nil / empty values" % reps)
-    v.cov["exhaustive"] = not replay and not aborted
+                     "invalid or miscased wire shapes, zero-valued / nested / nil / empty values, frames other than a plain single message, nil / empty members" % reps)
+    v.cov["exhaustive"] = not replay and not aborted and not crashed
     by_kind = {}
     for r in rows:
         by_kind[r["k"]] = by_kind.get(r["k"], 0) + 1
@@ -203,6 +257,8 @@ def run(tier, seed, replay):
             continue
         for sig in sigs_of(e, f["monfail"]):
             nviol[sig] = nviol.get(sig, 0) + 1
+            if e["k"] == "fuzz":
+                d = {"in": "%s inputs into %s, first panic" % (e["gen"], e["dec"]), "out": e.get("sample", "")}
             v.violation(sig, "real codec outcome violates %s (input %s -> %s)" % (f["monfail"], d.get("in", "")[:300], d.get("out", "")[:300]),
                         {"k": e["k"], "c": e.get("c"), "o": e.get("o", e), "in": d.get("in"), "out": d.get("out"), "inv": f["monfail"]})
     for (k, o), (n, c) in sorted(drift.items(), key=lambda kv: -kv[1][0]):
